@@ -570,7 +570,23 @@ struct RoundSpec {
     expected: Option<Vec<ExpCall>>,
     /// seed of the SSE rendering (event names, comments, invalid-JSON lines) and the HTTP chunking
     render: u64,
+    /// how the body ENDS (mode 0 only).  0: every event terminated by its blank line, `[DONE]` iff `done`.
+    /// Tails that only `pipe.finish()` can deliver (no `[DONE]` before them):
+    ///   1: the last event is CRLF-framed and the body is cut between the CR and the LF of its final blank line
+    ///      (`...}\r\n\r`) — SseDecoder::finish completes the line and the event IS dispatched;
+    ///   4: the last event ends `...}\n\r` (LF line end, then a lone CR) — dispatched as well;
+    ///   5: all events terminated, then `data: [DONE]\r\n\r` — the marker itself comes out of finish().
+    /// Tails whose last event is NOT dispatched (`lost`: a well-formed call the provider never got to emit):
+    ///   2: `data: <lost>\n` (LF body missing its final blank line); 3: `data: <lost>` (no line end at all);
+    ///   6: `data: [DONE]\n\n` and then `data: <lost>\r\n\r` (after the marker: the stream has ended).
+    ///   7: a body without a single byte ("provider stream ended before first byte": provider_error).
+    #[serde(default)]
+    tail: u8,
+    /// the event rendered as the undispatched tail (tails 2, 3, 6); never part of `events`
+    #[serde(default)]
+    lost: Option<Value>,
 }
+
 #[derive(Clone, Debug, Serialize, Deserialize)]
 struct LoopCase {
     stateless: bool,
@@ -604,10 +620,16 @@ fn marker_args(r: &mut Rng, name: &str, tok: &str) -> String {
     }
 }
 
-fn render_sse(spec: &RoundSpec) -> Vec<Vec<u8>> {
+/// the bytes of the answer (before HTTP chunking) and the generator state for the chunking
+fn render_body(spec: &RoundSpec) -> (Vec<u8>, Rng) {
     let mut r = Rng::new(spec.render);
     let mut s = String::new();
-    for ev in &spec.events {
+    if spec.tail == 7 {
+        return (vec![], r);
+    }
+    let all_crlf = spec.tail == 1 && r.chance(1, 2);
+    let n = spec.events.len();
+    for (i, ev) in spec.events.iter().enumerate() {
         if r.chance(1, 6) {
             s.push_str(": keep-alive\n\n");
         }
@@ -616,19 +638,41 @@ fn render_sse(spec: &RoundSpec) -> Vec<Vec<u8>> {
         }
         if r.chance(1, 2) {
             if let Some(t) = ev.get("type").and_then(|t| t.as_str()) {
-                s.push_str(&format!("event: {t}\n"));
+                s.push_str(&format!("event: {t}{}", if all_crlf { "\r\n" } else { "\n" }));
             }
         }
-        let nl = if r.chance(1, 5) { "\r\n" } else { "\n" };
-        s.push_str(&format!("data: {}{nl}{nl}", serde_json::to_string(ev).unwrap()));
+        let nl = if all_crlf || r.chance(1, 5) { "\r\n" } else { "\n" };
+        let js = serde_json::to_string(ev).unwrap();
+        if i + 1 == n && spec.tail == 1 {
+            // cut one byte short: the LF of the blank line never arrives
+            s.push_str(&format!("data: {js}\r\n\r"));
+        } else if i + 1 == n && spec.tail == 4 {
+            s.push_str(&format!("data: {js}\n\r"));
+        } else {
+            s.push_str(&format!("data: {js}{nl}{nl}"));
+        }
     }
-    if spec.done {
-        s.push_str("data: [DONE]\n\n");
+    let lost = || serde_json::to_string(spec.lost.as_ref().unwrap_or(&Value::Null)).unwrap();
+    match spec.tail {
+        1 | 4 => {}
+        2 => s.push_str(&format!("data: {}\n", lost())),
+        3 => s.push_str(&format!("data: {}", lost())),
+        5 => s.push_str("data: [DONE]\r\n\r"),
+        6 => s.push_str(&format!("data: [DONE]\n\ndata: {}\r\n\r", lost())),
+        _ => {
+            if spec.done {
+                s.push_str("data: [DONE]\n\n");
+            }
+        }
     }
     if s.is_empty() {
         s.push_str(": empty\n\n");
     }
-    let b = s.into_bytes();
+    (s.into_bytes(), r)
+}
+
+fn render_sse(spec: &RoundSpec) -> Vec<Vec<u8>> {
+    let (b, mut r) = render_body(spec);
     let k = r.range(1, 5) as usize;
     let mut cuts: Vec<usize> = (0..k - 1).map(|_| r.below(b.len() as u64 + 1) as usize).collect();
     cuts.sort();
@@ -647,11 +691,50 @@ fn scripted(spec: &RoundSpec) -> Scripted {
     match spec.mode {
         1 => Scripted::http_error(500, "{\"error\":\"scripted failure\"}"),
         2 => {
-            let mut s = Scripted::sse(render_sse(&RoundSpec { done: false, ..spec.clone() }));
+            let mut s = Scripted::sse(render_sse(&RoundSpec { done: false, tail: 0, lost: None, ..spec.clone() }));
             s.drop_after_chunks = Some((spec.render % 2) as usize);
             s
         }
         _ => Scripted::sse(render_sse(spec)),
+    }
+}
+
+/// a well-formed call the provider never gets to emit: it sits in a tail that is not dispatched
+fn lost_call(tag: &str) -> Value {
+    let args = serde_json::to_string(&json!({"append": true, "content": "x\n", "path": format!("m/tlost{}", tag.replace('_', "x"))})).unwrap();
+    json!({"type":"response.output_item.done","output_index":0,"item":{"type":"function_call","id":format!("fc_lost_{tag}"),"call_id":format!("call_lost_{tag}"),"name":"write","arguments":args,"status":"completed"}})
+}
+
+/// For the tails that deliver the last event through finish() (1, 4) the last done event of a function call is moved
+/// to the very end (an item's done event is the last of its events anyway) and the order the calls must be answered in
+/// is recomputed: output_index, ties by completion order.
+fn move_last_done_to_end(events: &mut Vec<Value>, expected: &mut Option<Vec<ExpCall>>) {
+    let Some(exp) = expected.as_mut() else { return };
+    let Some(pos) = events.iter().rposition(is_fc_done) else { return };
+    let e = events.remove(pos);
+    events.push(e);
+    let pos_of = |cid: &str| events.iter().position(|ev| is_fc_done(ev) && ev["item"]["call_id"].as_str() == Some(cid)).unwrap_or(usize::MAX);
+    exp.sort_by_key(|c| pos_of(&c.call_id));
+    exp.sort_by_key(|c| c.oi); // stable
+}
+
+/// how the body of a mode-0 round ends (see RoundSpec::tail): about two rounds in five get a tail that only
+/// pipe.finish() can deliver, or one that is not dispatched at all
+fn gen_tail(r: &mut Rng, events: &mut Vec<Value>, expected: &mut Option<Vec<ExpCall>>, tag: &str) -> (u8, Option<Value>) {
+    if !r.chance(2, 5) {
+        return (0, None);
+    }
+    let tail = *r.pick(&[1u8, 1, 1, 4, 5, 2, 3, 6]);
+    match tail {
+        1 | 4 => {
+            if events.is_empty() {
+                return (0, None);
+            }
+            move_last_done_to_end(events, expected);
+            (tail, None)
+        }
+        5 => (5, None),
+        _ => (tail, Some(lost_call(tag))),
     }
 }
 
@@ -726,11 +809,16 @@ fn gen_loop(r: &mut Rng, i: usize) -> LoopCase {
             let (ev, exp) = clean_round_p(r, &tag, &mut mk, if big { 14 } else { 4 }, if poison { 4 } else { 0 });
             (ev, Some(exp))
         };
-        rounds.push(RoundSpec { mode, events, done: r.chance(3, 4), expected, render: r.next() });
+        let (mut events, mut expected) = (events, expected);
+        let (tail, lost) = if mode == 0 { gen_tail(r, &mut events, &mut expected, &format!("{i}_{k}")) } else { (0, None) };
+        rounds.push(RoundSpec { mode, events, done: r.chance(3, 4), expected, render: r.next(), tail, lost });
     }
     // usually end with a call-free answer so that the run completes
     if r.chance(4, 5) {
-        rounds.push(RoundSpec { mode: 0, events: vec![response_id_event(r, "resp_end"), json!({"type":"response.output_text.delta","delta":"done"})], done: r.chance(3, 4), expected: Some(vec![]), render: r.next() });
+        let mut events = vec![response_id_event(r, "resp_end"), json!({"type":"response.output_text.delta","delta":"done"})];
+        let mut expected = Some(vec![]);
+        let (tail, lost) = gen_tail(r, &mut events, &mut expected, &format!("{i}_end"));
+        rounds.push(RoundSpec { mode: 0, events, done: r.chance(3, 4), expected, render: r.next(), tail, lost });
     }
     LoopCase { stateless, tool_choice: ch.value, choice_spec: ch.spec, followup, prompt: format!("prompt {i}"), rounds, thread: i % 3 == 1 }
 }
@@ -1067,7 +1155,7 @@ fn encode_loop(o: &LoopObs) -> Result<LoopEnc, String> {
 }
 
 fn coq_loop_case(c: &LoopCase, e: &LoopEnc) -> String {
-    let rounds = coq_list(&c.rounds, |rd| format!("{{| r_fail := {}; r_events := {} |}}", coq_bool(rd.mode != 0), coq_list(&rd.events, coq_json)));
+    let rounds = coq_list(&c.rounds, |rd| format!("{{| r_fail := {}; r_events := {} |}}", coq_bool(rd.mode != 0 || rd.tail == 7), coq_list(&rd.events, coq_json)));
     format!(
         "CLoop {{| g_stateless := {}; g_choice := {}; g_followup := {}; g_fixed := true |}} {} {} {} {} {} {}",
         coq_bool(c.stateless),
@@ -1081,6 +1169,181 @@ fn coq_loop_case(c: &LoopCase, e: &LoopEnc) -> String {
         coq_list(&e.valids, |b| coq_bool(*b).to_string()),
         coq_list_n_chunked(&e.obs)
     )
+}
+
+/// the number tokens of a text outside JSON strings that serde_json does not keep as they are written (not a
+/// plain u64 / i64 literal), with serde_json's own spelling: the `t_num` table of Model.SseJson (a_fmt_float)
+fn num_table(texts: &[String]) -> Vec<(String, Option<String>)> {
+    let mut out: BTreeMap<String, Option<String>> = BTreeMap::new();
+    for t in texts {
+        let cs: Vec<char> = t.chars().collect();
+        let mut i = 0;
+        while i < cs.len() {
+            let c = cs[i];
+            if c == '"' {
+                i += 1;
+                while i < cs.len() && cs[i] != '"' && cs[i] != '\n' {
+                    if cs[i] == '\\' {
+                        i += 1;
+                    }
+                    i += 1;
+                }
+                i += 1;
+            } else if c == '-' || c.is_ascii_digit() {
+                let st = i;
+                while i < cs.len() && (cs[i].is_ascii_digit() || matches!(cs[i], '-' | '+' | '.' | 'e' | 'E')) {
+                    i += 1;
+                }
+                let tok: String = cs[st..i].iter().collect();
+                if !(tok.len() <= 15 && tok.chars().all(|c| c.is_ascii_digit())) {
+                    let spelled = serde_json::from_str::<Value>(&tok).ok().map(|v| serde_json::to_string(&v).unwrap());
+                    out.insert(tok, spelled);
+                }
+            } else {
+                i += 1;
+            }
+        }
+    }
+    out.into_iter().collect()
+}
+
+fn coq_tables(compat: bool, texts: &[String]) -> String {
+    format!(
+        "{{| SseJson.t_compat := {}; SseJson.t_err := []; SseJson.t_num := {}; SseJson.t_vs := []; SseJson.t_vr := [] |}}",
+        coq_bool(compat),
+        coq_list(&num_table(texts), |(k, m)| format!("({}, {})", coq_str(k), coq_opt(m, |s| coq_str(s))))
+    )
+}
+
+fn coq_chunks(chunks: &[Vec<u8>]) -> String {
+    coq_list(chunks, |c| coq_list_n_chunked(&c.iter().map(|b| *b as u64).collect::<Vec<u64>>()))
+}
+
+/// the same run for Model.ToolLoopSse: the answers as the BYTES the scripted provider served (in its HTTP chunks);
+/// the model decodes them with C15's stream model and feeds the loop from what the collector observes
+fn coq_loop_case_b(c: &LoopCase, e: &LoopEnc) -> String {
+    let texts: Vec<String> = c.rounds.iter().filter(|rd| rd.mode == 0).map(|rd| String::from_utf8_lossy(&render_body(rd).0).to_string()).collect();
+    let bodies = coq_list(&c.rounds, |rd| {
+        if rd.mode != 0 {
+            "{| bb_fail := true; bb_chunks := [] |}".to_string()
+        } else {
+            format!("{{| bb_fail := false; bb_chunks := {} |}}", coq_chunks(&render_sse(rd)))
+        }
+    });
+    format!(
+        "CLoopB {} {{| g_stateless := {}; g_choice := {}; g_followup := {}; g_fixed := true |}} {} {} {} {} {} {}",
+        coq_tables(c.stateless, &texts),
+        coq_bool(c.stateless),
+        coq_json(&c.tool_choice),
+        coq_opt(&c.followup, |s| coq_str(s)),
+        coq_str(&c.prompt),
+        if c.thread { format!("(Some [IMsg {} {}])", coq_str("user"), coq_str(&c.prompt)) } else { "None".to_string() },
+        bodies,
+        coq_list(&e.outs, |s| coq_str(s)),
+        coq_list(&e.valids, |b| coq_bool(*b).to_string()),
+        coq_list_n_chunked(&e.obs)
+    )
+}
+fn loop_body_bytes(c: &LoopCase) -> usize {
+    c.rounds.iter().filter(|rd| rd.mode == 0).map(|rd| render_body(rd).0.len()).sum()
+}
+
+// ------------------------------------------------------------------ part D: the pipe in front of the collector
+/// One answer through the real OpenResponsesSsePipe + ToolCallCollector (hook ripd::verif::run_sse_pipe: push_bytes
+/// per chunk until [DONE], then finish()), every tail, any chunking.
+struct PipeCase {
+    spec: RoundSpec,
+    compat: bool,
+    chunks: Vec<Vec<u8>>,
+}
+
+fn gen_pipe(r: &mut Rng, i: usize) -> PipeCase {
+    let mut mk = |r: &mut Rng, j: usize| -> (String, String) {
+        let name = r.pick(&TOOLS).to_string();
+        let args = match r.below(3) {
+            0 => String::new(),
+            _ => serde_json::to_string(&json!({"path": format!("m/t{j}"), "é": "ü\n", "n": 1.5})).unwrap(),
+        };
+        (name, args)
+    };
+    let (mut events, mut expected) = if i % 4 == 3 {
+        let mut ev = dirty_events(r, "p", &mut mk);
+        if r.chance(1, 2) {
+            let at = r.below(ev.len() as u64 + 1) as usize;
+            ev.insert(at, response_id_event(r, "resp_p"));
+        }
+        (ev, None)
+    } else {
+        let (ev, exp) = clean_round(r, "p", &mut mk, 4);
+        (ev, Some(exp))
+    };
+    // three cases in four end in a special tail
+    let (tail, lost) = loop {
+        let t = gen_tail(r, &mut events, &mut expected, &format!("p{i}"));
+        if t.0 != 0 || i % 4 == 0 {
+            break t;
+        }
+    };
+    let spec = RoundSpec { mode: 0, events, done: r.chance(1, 2), expected, render: r.next(), tail, lost };
+    let (body, _) = render_body(&spec);
+    // chunking: a few random cuts, or one byte at a time over the last bytes (where the tail is)
+    let mut cuts: Vec<usize> = (0..r.below(4)).map(|_| r.below(body.len() as u64 + 1) as usize).collect();
+    if r.chance(1, 3) {
+        let from = body.len().saturating_sub(r.range(2, 12) as usize);
+        cuts.extend(from..body.len());
+    }
+    cuts.sort();
+    cuts.dedup();
+    let mut chunks = vec![];
+    let mut p = 0;
+    for c in cuts.into_iter().chain(std::iter::once(body.len())) {
+        if c > p || r.chance(1, 10) {
+            chunks.push(body[p..c].to_vec());
+        }
+        p = c;
+    }
+    PipeCase { spec, compat: r.chance(1, 2), chunks }
+}
+
+/// (event frames with data in order, drained calls, response id)
+fn run_pipe(rt: &tokio::runtime::Runtime, c: &PipeCase) -> Option<(Vec<Value>, Vec<ripd::verif::VerifCall>, Option<String>)> {
+    let chunks = c.chunks.clone();
+    let compat = c.compat;
+    let got = std::panic::catch_unwind(std::panic::AssertUnwindSafe(|| rt.block_on(ripd::verif::run_sse_pipe(std::path::PathBuf::from("/dev/null"), chunks, 0, compat, None))));
+    let (frames, _seq, calls, rid) = got.ok()?;
+    let mut data = vec![];
+    for f in &frames {
+        if let rip_kernel::EventKind::ProviderEvent { status, data: Some(d), .. } = &f.kind {
+            if *status == rip_kernel::ProviderEventStatus::Event {
+                data.push(d.clone());
+            }
+        }
+    }
+    Some((data, calls, rid))
+}
+
+/// the property on one answer, judged by the frames: every function call in an output_item.done frame (non-empty
+/// call id, the done item names the function — or any done frame of a clean script) is drained, i.e. will be executed
+/// and answered; plus the collector checks with "the events" = the payloads of the frames
+fn pipe_oracle(c: &PipeCase, frames: &[Value], calls: &[ripd::verif::VerifCall]) -> Vec<(String, String)> {
+    let mut bad = collect_oracle(frames, calls, c.spec.expected.as_ref());
+    let clean = c.spec.expected.is_some();
+    for d in frames {
+        if is_fc_done(d) {
+            if let Some(cid) = d["item"]["call_id"].as_str().filter(|x| !x.is_empty()) {
+                if (clean || d["item"]["name"].is_string()) && !calls.iter().any(|k| k.1 == cid) {
+                    bad.push((format!("the frames show the provider's call {cid:?} (output_item.done) but the collector drains {:?}: it would never be executed or answered", calls.iter().map(|k| k.1.clone()).collect::<Vec<_>>()), "call_in_frames_not_drained".to_string()));
+                }
+            }
+        }
+    }
+    if let Some(l) = &c.spec.lost {
+        let cid = l["item"]["call_id"].as_str().unwrap_or("");
+        if calls.iter().any(|k| k.1 == cid) || frames.iter().any(|d| d["item"]["call_id"].as_str() == Some(cid)) {
+            bad.push((format!("the call {cid:?} sits in a tail that is never dispatched, yet it shows up (frames or drained calls)"), "undispatched_call_executed".to_string()));
+        }
+    }
+    bad
 }
 
 /// The property itself on the recorded bodies, the frames and the marker files.  Returns (what, class).
@@ -1243,6 +1506,71 @@ fn loop_oracle(c: &LoopCase, o: &LoopObs, e: &LoopEnc) -> Vec<(String, String)> 
             }
         }
     }
+    // O9: "the calls the provider emitted" judged by the provider-event FRAMES of the session stream — not by the
+    // collector, not by the generator: an output_item.done frame (status event) of a function_call item with a non-empty
+    // call id.  Every such call of answer k is answered in request k+1 (clean rounds: exactly these, in output_index
+    // order, ties by frame order); a run must not end `completed` with such a call in the frames of its last answer.
+    {
+        let mut frame_calls: Vec<Vec<(u64, String, bool)>> = vec![];
+        for f in &o.frames {
+            match f["type"].as_str().unwrap_or("") {
+                "openresponses_request_started" => frame_calls.push(vec![]),
+                "provider_event" if f["status"] == "event" => {
+                    let d = &f["data"];
+                    if d["type"] == "response.output_item.done" && d["item"]["type"] == "function_call" {
+                        if let Some(cid) = d["item"]["call_id"].as_str().filter(|x| !x.is_empty()) {
+                            if let Some(g) = frame_calls.last_mut() {
+                                g.push((d["output_index"].as_u64().unwrap_or(0), cid.to_string(), d["item"]["name"].is_string()));
+                            }
+                        }
+                    }
+                }
+                _ => {}
+            }
+        }
+        for (k, fc) in frame_calls.iter().enumerate() {
+            let clean = c.rounds.get(k).map(|rd| rd.expected.is_some()).unwrap_or(false);
+            // well-formed on its own (the done item names the function); in a clean round every done frame counts
+            let must: Vec<&(u64, String, bool)> = fc.iter().filter(|x| clean || x.2).collect();
+            if must.is_empty() {
+                continue;
+            }
+            if k + 1 < o.bodies.len() {
+                let nxt = outputs_of(&inputs[k + 1]);
+                let skip = if c.stateless { outputs_of(&inputs[k]).len().min(nxt.len()) } else { 0 };
+                let ids: Vec<String> = nxt[skip..].iter().map(|i| i["call_id"].as_str().unwrap_or("").to_string()).collect();
+                for (_, cid, _) in &must {
+                    if !ids.contains(cid) {
+                        bad.push((format!("answer {k}: the session stream shows the provider's call {cid:?} (output_item.done frame) but request {} answers {ids:?}", k + 1), "call_in_frames_not_answered".to_string()));
+                    }
+                }
+                if clean {
+                    let mut want: Vec<(u64, String)> = vec![];
+                    for (oi, cid, _) in fc {
+                        if !want.iter().any(|w| &w.1 == cid) {
+                            want.push((*oi, cid.clone()));
+                        }
+                    }
+                    want.sort_by_key(|w| w.0); // stable
+                    let want: Vec<String> = want.into_iter().map(|w| w.1).collect();
+                    if want != ids {
+                        bad.push((format!("answer {k}: the frames show calls {want:?} (output order) but request {} answers {ids:?}", k + 1), "not_answered_exactly_once_in_order".to_string()));
+                    }
+                }
+            } else if e.reason == "completed" {
+                let ids: Vec<&String> = must.iter().map(|x| &x.1).collect();
+                bad.push((format!("the run ended `completed` after request {k} although the session stream shows the provider's calls {ids:?} in its answer: never executed, never answered"), "call_in_frames_not_answered".to_string()));
+            }
+        }
+        // an undispatched tail is not a call: its marker must not exist
+        for rd in &c.rounds {
+            if let Some(tok) = rd.lost.as_ref().and_then(|l| l["item"]["arguments"].as_str()).and_then(marker_of) {
+                if o.markers.get(&tok).copied().unwrap_or(0) > 0 {
+                    bad.push((format!("marker {tok} written: a call in a tail the decoder never dispatches was executed"), "undispatched_call_executed".to_string()));
+                }
+            }
+        }
+    }
     // O2: a tool excluded by the configured tool choice is never executed
     if let Some(spec) = &c.choice_spec {
         for (k, d) in e.done.iter().enumerate() {
@@ -1337,7 +1665,7 @@ fn loop_nontrivial(c: &LoopCase, e: &LoopEnc) -> bool {
 fn corpus_loops() -> Vec<LoopCase> {
     let call = |oi: u64, id: &str, cid: &str, name: &str, args: &str| json!({"type":"response.output_item.done","output_index":oi,"item":{"type":"function_call","id":id,"call_id":cid,"name":name,"arguments":args}});
     let w = |t: &str| serde_json::to_string(&json!({"append": true, "content": "x\n", "path": format!("m/{t}")})).unwrap();
-    let end = RoundSpec { mode: 0, events: vec![json!({"type":"response.completed","response":{"id":"resp_end"}})], done: true, expected: Some(vec![]), render: 3 };
+    let end = RoundSpec { mode: 0, events: vec![json!({"type":"response.completed","response":{"id":"resp_end"}})], done: true, expected: Some(vec![]), render: 3, tail: 0, lost: None };
     let mut v = vec![];
     // S16: stateless history + follow-up user message, two tool rounds
     for stateless in [true, false] {
@@ -1349,8 +1677,8 @@ fn corpus_loops() -> Vec<LoopCase> {
             prompt: if stateless { "s16".into() } else { "s16_stateful".into() },
             thread: stateless,
             rounds: vec![
-                RoundSpec { mode: 0, events: vec![json!({"type":"response.created","response":{"id":"resp_1"}}), call(0, "fc_1", "call_1", "write", &w("t1"))], done: true, expected: Some(vec![ExpCall { oi: 0, call_id: "call_1".into(), name: "write".into(), args: w("t1") }]), render: 1 },
-                RoundSpec { mode: 0, events: vec![json!({"type":"response.created","response":{"id":"resp_2"}}), call(0, "fc_2", "call_2", "write", &w("t2"))], done: true, expected: Some(vec![ExpCall { oi: 0, call_id: "call_2".into(), name: "write".into(), args: w("t2") }]), render: 2 },
+                RoundSpec { mode: 0, events: vec![json!({"type":"response.created","response":{"id":"resp_1"}}), call(0, "fc_1", "call_1", "write", &w("t1"))], done: true, expected: Some(vec![ExpCall { oi: 0, call_id: "call_1".into(), name: "write".into(), args: w("t1") }]), render: 1, tail: 0, lost: None },
+                RoundSpec { mode: 0, events: vec![json!({"type":"response.created","response":{"id":"resp_2"}}), call(0, "fc_2", "call_2", "write", &w("t2"))], done: true, expected: Some(vec![ExpCall { oi: 0, call_id: "call_2".into(), name: "write".into(), args: w("t2") }]), render: 2, tail: 0, lost: None },
                 end.clone(),
             ],
         });
@@ -1364,7 +1692,7 @@ fn corpus_loops() -> Vec<LoopCase> {
         prompt: "s19".into(),
         thread: false,
         rounds: vec![
-            RoundSpec { mode: 0, events: vec![json!({"type":"response.created","response":{"id":"resp_1"}}), call(0, "fc_1", "call_1", "write", &w("t1")), call(0, "fc_1", "call_1", "write", &w("t1"))], done: true, expected: Some(vec![ExpCall { oi: 0, call_id: "call_1".into(), name: "write".into(), args: w("t1") }]), render: 1 },
+            RoundSpec { mode: 0, events: vec![json!({"type":"response.created","response":{"id":"resp_1"}}), call(0, "fc_1", "call_1", "write", &w("t1")), call(0, "fc_1", "call_1", "write", &w("t1"))], done: true, expected: Some(vec![ExpCall { oi: 0, call_id: "call_1".into(), name: "write".into(), args: w("t1") }]), render: 1, tail: 0, lost: None },
             end.clone(),
         ],
     });
@@ -1377,7 +1705,7 @@ fn corpus_loops() -> Vec<LoopCase> {
         prompt: "s19b".into(),
         thread: false,
         rounds: vec![
-            RoundSpec { mode: 0, events: vec![call(1, "fc_1", "call_1", "write", &w("t1")), call(0, "fc_2", "call_1", "write", &w("t2"))], done: false, expected: None, render: 1 },
+            RoundSpec { mode: 0, events: vec![call(1, "fc_1", "call_1", "write", &w("t1")), call(0, "fc_2", "call_1", "write", &w("t2"))], done: false, expected: None, render: 1, tail: 0, lost: None },
             end.clone(),
         ],
     });
@@ -1389,7 +1717,7 @@ fn corpus_loops() -> Vec<LoopCase> {
         followup: None,
         prompt: "barred".into(),
         thread: false,
-        rounds: vec![RoundSpec { mode: 0, events: vec![json!({"type":"response.created","response":{"id":"resp_1"}}), call(0, "fc_1", "call_1", "write", &w("t1"))], done: true, expected: Some(vec![ExpCall { oi: 0, call_id: "call_1".into(), name: "write".into(), args: w("t1") }]), render: 1 }, end.clone()],
+        rounds: vec![RoundSpec { mode: 0, events: vec![json!({"type":"response.created","response":{"id":"resp_1"}}), call(0, "fc_1", "call_1", "write", &w("t1"))], done: true, expected: Some(vec![ExpCall { oi: 0, call_id: "call_1".into(), name: "write".into(), args: w("t1") }]), render: 1, tail: 0, lost: None }, end.clone()],
     });
     v.push(LoopCase { stateless: false, tool_choice: json!({"type":"function"}), choice_spec: None, followup: None, prompt: "malformed".into(), rounds: vec![end.clone()], thread: false });
     // seeded change C16-3 (the body validator stops applying the schema to `input` items): provider data that is
@@ -1406,7 +1734,7 @@ fn corpus_loops() -> Vec<LoopCase> {
             followup: None,
             prompt: prompt.into(),
             thread: false,
-            rounds: vec![RoundSpec { mode: 0, events: vec![json!({"type":"response.created","response":{"id":"resp_1"}}), call(0, "fc_1", cid, name, &w("t1"))], done: true, expected: Some(vec![ExpCall { oi: 0, call_id: cid.into(), name: name.into(), args: w("t1") }]), render: 1 }, end.clone()],
+            rounds: vec![RoundSpec { mode: 0, events: vec![json!({"type":"response.created","response":{"id":"resp_1"}}), call(0, "fc_1", cid, name, &w("t1"))], done: true, expected: Some(vec![ExpCall { oi: 0, call_id: cid.into(), name: name.into(), args: w("t1") }]), render: 1, tail: 0, lost: None }, end.clone()],
         });
     }
     // the same call id (and item id) completed by two consecutive responses: two calls, two executions, each answered
@@ -1420,12 +1748,87 @@ fn corpus_loops() -> Vec<LoopCase> {
             prompt: if stateless { "sameid_stateless".into() } else { "sameid_stateful".into() },
             thread: false,
             rounds: vec![
-                RoundSpec { mode: 0, events: vec![json!({"type":"response.created","response":{"id":"resp_1"}}), call(0, "fc_1", "call_1", "write", &w("t1"))], done: true, expected: Some(vec![ExpCall { oi: 0, call_id: "call_1".into(), name: "write".into(), args: w("t1") }]), render: 1 },
-                RoundSpec { mode: 0, events: vec![json!({"type":"response.created","response":{"id":"resp_2"}}), call(0, "fc_1", "call_1", "write", &w("t2"))], done: true, expected: Some(vec![ExpCall { oi: 0, call_id: "call_1".into(), name: "write".into(), args: w("t2") }]), render: 2 },
+                RoundSpec { mode: 0, events: vec![json!({"type":"response.created","response":{"id":"resp_1"}}), call(0, "fc_1", "call_1", "write", &w("t1"))], done: true, expected: Some(vec![ExpCall { oi: 0, call_id: "call_1".into(), name: "write".into(), args: w("t1") }]), render: 1, tail: 0, lost: None },
+                RoundSpec { mode: 0, events: vec![json!({"type":"response.created","response":{"id":"resp_2"}}), call(0, "fc_1", "call_1", "write", &w("t2"))], done: true, expected: Some(vec![ExpCall { oi: 0, call_id: "call_1".into(), name: "write".into(), args: w("t2") }]), render: 2, tail: 0, lost: None },
                 end.clone(),
             ],
         });
     }
+    // seeded change C16-4 (pipe.finish() logs the events it flushes but does not show them to the collector): a
+    // CRLF-framed answer without [DONE] that is cut between the CR and the LF of its final blank line, the last
+    // output_item.done in the unterminated tail — two calls (the second one in the tail) and a single call, both
+    // history modes; the same with an LF line end followed by a lone CR; and the tails that are NOT dispatched
+    // (LF body without its final blank line, last line without line end, a call after [DONE]): nothing to answer
+    let exp = |cid: &str, t: &str| ExpCall { oi: if cid == "call_2" { 1 } else { 0 }, call_id: cid.into(), name: "write".into(), args: w(t) };
+    for stateless in [false, true] {
+        let m = if stateless { "stateless" } else { "stateful" };
+        v.push(LoopCase {
+            stateless,
+            tool_choice: json!("auto"),
+            choice_spec: Some(None),
+            followup: None,
+            prompt: format!("tail_crlf_cut_two_{m}"),
+            thread: false,
+            rounds: vec![
+                RoundSpec { mode: 0, events: vec![json!({"type":"response.created","response":{"id":"resp_1"}}), call(0, "fc_1", "call_1", "write", &w("t1")), call(1, "fc_2", "call_2", "write", &w("t2"))], done: false, expected: Some(vec![exp("call_1", "t1"), exp("call_2", "t2")]), render: 8, tail: 1, lost: None },
+                end.clone(),
+            ],
+        });
+        v.push(LoopCase {
+            stateless,
+            tool_choice: json!("auto"),
+            choice_spec: Some(None),
+            followup: None,
+            prompt: format!("tail_crlf_cut_single_{m}"),
+            thread: false,
+            rounds: vec![
+                RoundSpec { mode: 0, events: vec![json!({"type":"response.created","response":{"id":"resp_1"}}), call(0, "fc_1", "call_1", "write", &w("t1"))], done: false, expected: Some(vec![exp("call_1", "t1")]), render: 9, tail: 1, lost: None },
+                end.clone(),
+            ],
+        });
+    }
+    v.push(LoopCase {
+        stateless: false,
+        tool_choice: json!("auto"),
+        choice_spec: Some(None),
+        followup: None,
+        prompt: "tail_lf_cr".into(),
+        thread: false,
+        rounds: vec![RoundSpec { mode: 0, events: vec![json!({"type":"response.created","response":{"id":"resp_1"}}), call(0, "fc_1", "call_1", "write", &w("t1"))], done: false, expected: Some(vec![exp("call_1", "t1")]), render: 10, tail: 4, lost: None }, end.clone()],
+    });
+    for (prompt, tail) in [("tail_lf_noblank", 2u8), ("tail_lf_noeol", 3), ("tail_call_after_done", 6)] {
+        v.push(LoopCase {
+            stateless: tail == 3,
+            tool_choice: json!("auto"),
+            choice_spec: Some(None),
+            followup: None,
+            prompt: prompt.into(),
+            thread: false,
+            rounds: vec![
+                RoundSpec { mode: 0, events: vec![json!({"type":"response.created","response":{"id":"resp_1"}}), call(0, "fc_1", "call_1", "write", &w("t1"))], done: false, expected: Some(vec![exp("call_1", "t1")]), render: 11, tail, lost: Some(lost_call(prompt)) },
+                end.clone(),
+            ],
+        });
+    }
+    // [DONE] itself in the unterminated tail; an answer without a single byte (provider_error)
+    v.push(LoopCase {
+        stateless: false,
+        tool_choice: json!("auto"),
+        choice_spec: Some(None),
+        followup: None,
+        prompt: "tail_done_in_tail".into(),
+        thread: false,
+        rounds: vec![RoundSpec { mode: 0, events: vec![json!({"type":"response.created","response":{"id":"resp_1"}}), call(0, "fc_1", "call_1", "write", &w("t1"))], done: true, expected: Some(vec![exp("call_1", "t1")]), render: 12, tail: 5, lost: None }, end.clone()],
+    });
+    v.push(LoopCase {
+        stateless: false,
+        tool_choice: json!("auto"),
+        choice_spec: Some(None),
+        followup: None,
+        prompt: "empty_body".into(),
+        thread: false,
+        rounds: vec![RoundSpec { mode: 0, events: vec![], done: false, expected: Some(vec![]), render: 13, tail: 7, lost: None }, end.clone()],
+    });
     let many: Vec<Value> = std::iter::once(json!({"type":"response.created","response":{"id":"resp_1"}})).chain((0..20).map(|j| call(j, &format!("fc_{j}"), &format!("call_{j}"), "write", &w(&format!("t{j}"))))).collect();
     let many2: Vec<Value> = std::iter::once(json!({"type":"response.created","response":{"id":"resp_2"}})).chain((20..40).map(|j| call(j, &format!("fc_{j}"), &format!("call_{j}"), "write", &w(&format!("t{j}"))))).collect();
     // the bound counts refused calls too: 40 calls, every one barred by tool_choice "none" — 32 are processed
@@ -1436,7 +1839,7 @@ fn corpus_loops() -> Vec<LoopCase> {
         followup: None,
         prompt: "bound_barred".into(),
         thread: false,
-        rounds: vec![RoundSpec { mode: 0, events: many.clone(), done: true, expected: None, render: 5 }, RoundSpec { mode: 0, events: many2.clone(), done: true, expected: None, render: 6 }, end.clone()],
+        rounds: vec![RoundSpec { mode: 0, events: many.clone(), done: true, expected: None, render: 5, tail: 0, lost: None }, RoundSpec { mode: 0, events: many2.clone(), done: true, expected: None, render: 6, tail: 0, lost: None }, end.clone()],
     });
     v.push(LoopCase {
         stateless: true,
@@ -1445,7 +1848,7 @@ fn corpus_loops() -> Vec<LoopCase> {
         followup: None,
         prompt: "bound".into(),
         thread: false,
-        rounds: vec![RoundSpec { mode: 0, events: many, done: true, expected: None, render: 5 }, RoundSpec { mode: 0, events: many2, done: true, expected: None, render: 6 }, end.clone()],
+        rounds: vec![RoundSpec { mode: 0, events: many, done: true, expected: None, render: 5, tail: 0, lost: None }, RoundSpec { mode: 0, events: many2, done: true, expected: None, render: 6, tail: 0, lost: None }, end.clone()],
     });
     v
 }
@@ -1474,12 +1877,14 @@ fn main() {
     std::env::set_var("NO_PROXY", "127.0.0.1,localhost");
     std::env::remove_var("RIP_CONFIG");
     std::env::remove_var("RIP_CONFIG_HOME");
-    let (n_collect, n_enforce, n_loop) = match a.tier.as_str() {
-        "thorough" => (6000, 3000, 2500),
-        _ => (500, 250, 200),
+    let (n_collect, n_enforce, n_loop, n_pipe) = match a.tier.as_str() {
+        "thorough" => (6000, 3000, 2500, 3000),
+        _ => (500, 250, 200, 240),
     };
     let mut r = Rng::new(a.seed);
     let mut w = CaseWriter::new(&a.out, "Model.ToolLoop", "check_case", "model_obs", 60);
+    // cases of Model.ToolLoopSse (the answers as bytes, decoded by C15's stream model inside the case)
+    let mut wb = CaseWriter::new(&a.out.join("body"), "Model.ToolLoopSse", "check_case_b", "model_obs_b", 20).with_base(1_000_000);
     let mut distinct = Distinct::default();
     let rt = tokio::runtime::Builder::new_multi_thread().worker_threads(4).enable_all().build().unwrap();
 
@@ -1508,11 +1913,13 @@ fn main() {
                         res.oracle_violations.push(OracleViolation { case_id: 0, what, class, replay: json!({"loop": c}) });
                     }
                     w.push(coq_loop_case(&c, &e));
+                    wb.push(coq_loop_case_b(&c, &e));
                 }
                 Err(e) => println!("encode error: {e}"),
             }
             w.flush();
-            res.case_files = w.files.iter().map(|p| p.display().to_string()).collect();
+            wb.flush();
+            res.case_files = w.files.iter().chain(wb.files.iter()).map(|p| p.display().to_string()).collect();
             res.evaluations = 1;
             res.write(&a.out);
             return;
@@ -1537,7 +1944,30 @@ fn main() {
             res.write(&a.out);
             return;
         }
-        eprintln!("replay file is neither a loop case nor a collector case");
+        if let Some(pc) = v.get("pipe") {
+            let chunks: Vec<Vec<u8>> = serde_json::from_value(pc["chunks"].clone()).expect("pipe.chunks");
+            let spec: RoundSpec = serde_json::from_value(pc["spec"].clone()).expect("pipe.spec");
+            let c = PipeCase { spec, compat: pc["compat"].as_bool().unwrap_or(false), chunks };
+            match run_pipe(&rt, &c) {
+                Some((frames, calls, rid)) => {
+                    println!("body: {:?}\nevent frames: {}\ndrained: {calls:?}\nresponse id: {rid:?}", String::from_utf8_lossy(&c.chunks.concat()), serde_json::to_string(&frames).unwrap());
+                    for (what, class) in pipe_oracle(&c, &frames, &calls) {
+                        println!("ORACLE [{class}] {what}");
+                        res.oracle_violations.push(OracleViolation { case_id: 0, what, class, replay: json!({"pipe": pc}) });
+                    }
+                    let mut obs = vec![frames.len() as u64];
+                    enc_calls(&mut obs, &calls, rid.as_deref());
+                    wb.push(format!("CPipeC {} {} {}", coq_tables(c.compat, &[String::from_utf8_lossy(&c.chunks.concat()).to_string()]), coq_chunks(&c.chunks), coq_list_n(&obs)));
+                }
+                None => println!("the pipe panicked"),
+            }
+            wb.flush();
+            res.case_files = wb.files.iter().map(|p| p.display().to_string()).collect();
+            res.evaluations = 1;
+            res.write(&a.out);
+            return;
+        }
+        eprintln!("replay file is neither a loop case nor a collector case nor a pipe case");
         std::process::exit(2);
     }
 
@@ -1645,9 +2075,61 @@ fn main() {
         distinct.add(&format!("{}", c.value));
     }
 
+    // ---- (d) one answer through the real pipe + collector: every tail, any chunking
+    let mut shrunk_pipe: BTreeSet<String> = BTreeSet::new();
+    for i in 0..n_pipe {
+        let c = gen_pipe(&mut r, i);
+        let case_id = (30_000 + i) as i64;
+        let cj = json!({"pipe": {"spec": c.spec, "compat": c.compat, "chunks": c.chunks}});
+        res.evaluations += 1;
+        res.bump(&format!("pipe-tail={}", c.spec.tail));
+        let Some((frames, calls, rid)) = run_pipe(&rt, &c) else {
+            res.impl_panics += 1;
+            res.oracle_violations.push(OracleViolation { case_id, what: "OpenResponsesSsePipe / ToolCallCollector panicked".into(), class: "panic".into(), replay: cj });
+            continue;
+        };
+        if matches!(c.spec.tail, 1 | 4) && c.spec.events.last().map(is_fc_done).unwrap_or(false) {
+            res.bump("pipe-call-delivered-by-finish");
+        }
+        res.oracle_checks += 1;
+        for (what, class) in pipe_oracle(&c, &frames, &calls) {
+            // the first failing case of a class is reported with the smallest event list that still fails
+            let replay = if shrunk_pipe.insert(class.clone()) {
+                let cls = class.clone();
+                let evs = shrink_vec(c.spec.events.clone(), |es| {
+                    let mut spec = c.spec.clone();
+                    spec.events = es.to_vec();
+                    spec.expected = None;
+                    let cc = PipeCase { chunks: vec![render_body(&spec).0], spec, compat: c.compat };
+                    run_pipe(&rt, &cc).map(|(f, k, _)| pipe_oracle(&cc, &f, &k).iter().any(|(_, kk)| *kk == cls)).unwrap_or(false)
+                });
+                let mut spec = c.spec.clone();
+                spec.events = evs;
+                spec.expected = None;
+                let chunks = vec![render_body(&spec).0];
+                json!({"pipe": {"spec": spec, "compat": c.compat, "chunks": chunks}, "shrunk_from_case": case_id})
+            } else {
+                cj.clone()
+            };
+            res.oracle_violations.push(OracleViolation { case_id, what, class, replay });
+        }
+        if !a.oracle_only() {
+            let mut obs = vec![frames.len() as u64];
+            enc_calls(&mut obs, &calls, rid.as_deref());
+            let id = wb.push(format!("CPipeC {} {} {}", coq_tables(c.compat, &[String::from_utf8_lossy(&c.chunks.concat()).to_string()]), coq_chunks(&c.chunks), coq_list_n(&obs)));
+            if res.case_index.len() < 6000 {
+                res.case_index.insert(id.to_string(), cj.clone());
+            }
+        }
+        if !c.spec.events.is_empty() {
+            distinct.add(&format!("{:?}", c.chunks));
+        }
+    }
+
     // ---- (c) whole runs
     let skip_loop = a.extra.get("no-loop").map(|v| v == "1").unwrap_or(false);
     let mut loops: Vec<LoopCase> = if skip_loop { vec![] } else { corpus_loops() };
+    let n_corpus = loops.len();
     if !skip_loop {
         for i in 0..n_loop {
             loops.push(gen_loop(&mut r, i));
@@ -1752,10 +2234,28 @@ fn main() {
             };
             res.oracle_violations.push(OracleViolation { case_id, what, class, replay });
         }
+        for rd in c.rounds.iter().take(o.bodies.len()) {
+            if rd.mode == 0 {
+                res.bump(&format!("loop-answer-tail={}", rd.tail));
+                if matches!(rd.tail, 1 | 4) && rd.events.last().map(is_fc_done).unwrap_or(false) {
+                    res.bump("loop-call-delivered-by-finish");
+                }
+            }
+        }
         if !a.oracle_only() {
             let id = w.push(coq_loop_case(c, &e));
             if res.case_index.len() < 6000 {
                 res.case_index.insert(id.to_string(), cj.clone());
+            }
+            // the same run from the bytes: every run with a special tail, every corpus run, one in three of the others
+            // (answers of more than 48 KB in total stay event-level: parsing them inside Coq costs seconds)
+            let special = c.rounds.iter().any(|rd| rd.tail != 0);
+            if (special || i % 3 == 0 || i < n_corpus) && loop_body_bytes(c) <= 48_000 {
+                let id = wb.push(coq_loop_case_b(c, &e));
+                res.bump("loop-compared-from-the-bytes");
+                if res.case_index.len() < 6000 {
+                    res.case_index.insert(id.to_string(), cj.clone());
+                }
             }
         }
         if loop_nontrivial(c, &e) {
@@ -1766,8 +2266,9 @@ fn main() {
         }
     }
     w.flush();
+    wb.flush();
     res.distinct_nontrivial = distinct.count();
-    res.case_files = w.files.iter().map(|p| p.display().to_string()).collect();
+    res.case_files = w.files.iter().chain(wb.files.iter()).map(|p| p.display().to_string()).collect();
     // keep the evidence small: one violation per class is enough, the rest is counted
     let mut per_class: BTreeMap<String, usize> = BTreeMap::new();
     res.oracle_violations.retain(|v| {
